@@ -8,6 +8,7 @@ mod lang;
 mod limits;
 mod pipeline;
 mod pool;
+mod proc;
 mod strlib;
 
 use std::env;
@@ -29,6 +30,7 @@ fn main() -> ExitCode {
         "limits" => limits::run(&args[2..]),
         "pipeline" => pipeline::run(&args[2..]),
         "pool" => pool::run(&args[2], &args[3]),
+        "proc" => proc::run(&args[2], &args[3]),
         "strlib" => strlib::run(&args[2], &args[3]),
         "frontend" => frontend::run(&args[2..]),
         other => {
